@@ -1,3 +1,544 @@
-import CijModel.Voigt
+/-
+  C13 — results do not depend on how the same physical data are presented.
+
+  The statements are about the SAME model functions the correspondence runs of C01/C02 (`CijModel/NonShear.lean`),
+  C11 (`CijModel/Interp.lean`), C05 (`CijModel/LeastSq.lean`, `CijModel/FullModulus.lean`) and C17
+  (`CijModel/ElastDat.lean`) execute against the real code; "listed in another order" is `List.Perm`.
+
+  1  `avg_perm_q`, `avg_perm_q_point`, `values_perm_q`
+                                             non-Γ q-points listed in another order together with their weights
+  2  `avg_perm_modes`, `avg_perm_modes_gamma_slots`, `avg_perm_modes_point`, `values_perm_modes`
+                                             modes listed in another order inside a q-point (Γ: the three acoustic slots stay)
+  3  `avg_weight_scale`, `avg_weight_scale_point`, `values_weight_scale`   all weights times a common factor c ≠ 0
+     (`…_point`: the five quantities the longitudinal / off-diagonal classes compute at one (T, V) point, any prefactors;
+      `values_…`: their `value_isothermal` / `value_adiabatic`)
+  4  `interp_perm_equivariant`, `interp_perm_gamma_zero`   the per-(q,m) interpolation loop commutes with re-indexing (q,m)
+  5  `lsq_row_perm`, `polyfit_row_perm`, `fit_modulus_row_perm`   least squares does not see the order of the rows
+  6  `lsq_affine_abscissa`, `eulerian_reference_affine`, `fit_modulus_affine_partial`, `static_row_perm_partial`
+                                             another reference volume V₀ = volumes[0]: abscissa changes affinely, fitted values do not
+  7  `static_keys_canonical`, `static_columns_reordered`   column prefix / letter case / order of the static table
+
+  PARTIAL (details at the theorems):
+    * 5/6 at the level of the executable solvers are conditional on the solver answering (`… = some r`): the solvers return
+      only certified solutions of the normal equations, their totality on full-rank systems is not proved (same gap as
+      C11 `lsq_exact_kernel_partial`); the mathematical statement `lsq_affine_abscissa` itself is proved in full.
+    * 4 assumes both runs return; that an exception of one run is an exception of the other is not stated.
+    * volume blocks of the phonon file in another order: goes through qha (grid refinement, its own ordering check) and
+      scipy — no theorem; `harness/c13.py` (vol-rev / vol-shuffle: same numbers or an error) is the only evidence.
+    * rounding: theorems are over ℝ / ordered fields; "unchanged to rounding" is measured by the harness (1e-8 of scale).
+-/
+import CijProofs.Lemmas.Presentation
+import CijProofs.Lemmas.Voigt
+import CijProofs.Properties.C11
+import CijProofs.Properties.C17
+
 namespace Cij.C13
+
+open Cij.NonShear
+
+/-! ### 1. q-points in another order -/
+
+/-- **avg_perm_q.**  The Γ point keeps the first place; the other q-points are listed in another order TOGETHER WITH their
+weights (the list of (row, weight) pairs is permuted).  For all arrays and weights `average_over_modes` is unchanged. -/
+theorem avg_perm_q (r0 : List ℝ) (w0 : ℝ) (rs rs' : List (List ℝ)) (ws ws' : List ℝ)
+    (hl : rs.length = ws.length) (hl' : rs'.length = ws'.length) (h : (rs.zip ws).Perm (rs'.zip ws')) :
+    averageOverModes (r0 :: rs) (w0 :: ws) = averageOverModes (r0 :: rs') (w0 :: ws') :=
+  average_perm_q r0 w0 rs rs' ws ws' hl hl' h
+
+/-- **avg_perm_q at a (T, V) point.**  `freq_array`, the three `mode_gamma` arrays and the weights are the projections of
+one list of q-point records; listing the records after Γ in another order changes none of the five quantities the
+longitudinal / off-diagonal classes compute (zero-point, thermal, isothermal→adiabatic), for any prefactors, any T, V, C_V. -/
+theorem avg_perm_q_point (h k hdk : ℝ) (na : ℕ) (T V cv : ℝ) (p : Pref ℝ) (g : QPoint) (qs qs' : List QPoint)
+    (hq : qs.Perm qs') :
+    pointValues h k hdk na T V cv p ((g :: qs).map (·.freq)) ((g :: qs).map (·.mg0)) ((g :: qs).map (·.mg1))
+        ((g :: qs).map (·.mg2)) ((g :: qs).map (·.w))
+      = pointValues h k hdk na T V cv p ((g :: qs').map (·.freq)) ((g :: qs').map (·.mg0)) ((g :: qs').map (·.mg1))
+        ((g :: qs').map (·.mg2)) ((g :: qs').map (·.w)) := by
+  unfold pointValues zeroPointLongAt thermalLongAt zeroPointOffAt thermalOffAt isoToAdiaAt
+  simp only [modeGamma, Qarr, Q1arr, Q2arr, zw2_mapq, map2_mapq]
+  simp only [average_perm_q_map _ _ g qs qs' hq]
+
+/-- **the results of the classes**: `value_isothermal` and `value_adiabatic` of the longitudinal and the off-diagonal class at any
+(T, V) point — any strain fractions e₀, e₁, any P, P_static, C_V — do not depend on the order of the q-points after Γ -/
+theorem values_perm_q (c : Consts ℝ) (T P cv V e0 e1 pst : ℝ) (g : QPoint) (qs qs' : List QPoint) (hq : qs.Perm qs') :
+    values c T P cv (sliceOfQ V e0 e1 pst (g :: qs)) ((g :: qs).map (·.w))
+      = values c T P cv (sliceOfQ V e0 e1 pst (g :: qs')) ((g :: qs').map (·.w)) :=
+  values_eq_of_pointValues c T P cv _ _ _ _ rfl rfl rfl rfl
+    (avg_perm_q_point c.h c.k c.hdk c.na T V cv (prefactorsLong e0 e1) g qs qs' hq)
+    (avg_perm_q_point c.h c.k c.hdk c.na T V cv (prefactorsOff e0 e1) g qs qs' hq)
+
+/-! ### 2. modes in another order -/
+
+/-- **avg_perm_modes.**  Inside every non-Γ q-point the modes may be listed in any other order; at Γ the entries after the
+three acoustic slots may be listed in any other order (whatever stands IN the three slots is masked anyway). -/
+theorem avg_perm_modes (r0 r0' : List ℝ) (rs rs' : List (List ℝ)) (w : List ℝ)
+    (hΓ : (r0.drop 3).Perm (r0'.drop 3)) (hlen : r0.length = r0'.length) (hrs : List.Forall₂ List.Perm rs rs') :
+    averageOverModes (r0 :: rs) w = averageOverModes (r0' :: rs') w :=
+  average_perm_modes r0 r0' rs rs' w hΓ hlen hrs
+
+/-- the Γ clause as the property words it: a permutation of the Γ row that keeps the three acoustic modes in the first
+three slots (`a ~ a'` among themselves, the optical ones `b ~ b'` among themselves) -/
+theorem avg_perm_modes_gamma_slots (a a' b b' : List ℝ) (rs : List (List ℝ)) (w : List ℝ)
+    (ha : a.length = 3) (haa : a.Perm a') (hbb : b.Perm b') :
+    averageOverModes ((a ++ b) :: rs) w = averageOverModes ((a' ++ b') :: rs) w := by
+  have ha' : a'.length = 3 := haa.length_eq ▸ ha
+  apply average_perm_modes
+  · rw [List.drop_left' ha, List.drop_left' ha']; exact hbb
+  · simp [ha, ha', hbb.length_eq]
+  · exact List.forall₂_same.mpr fun r _ => List.Perm.refl r
+
+/-- **avg_perm_modes at a (T, V) point.**  The four `[q][m]` arrays are the images of one spectrum of mode records; every
+non-Γ q-point lists its modes in another order, Γ lists its non-acoustic modes in another order (the same order in all four
+arrays — one `List.Perm` of records): none of the five quantities changes. -/
+theorem avg_perm_modes_point (h k hdk : ℝ) (na : ℕ) (T V cv : ℝ) (p : Pref ℝ) (g g' : List ModeRec)
+    (S S' : List (List ModeRec)) (w : List ℝ)
+    (hΓ : (g.drop 3).Perm (g'.drop 3)) (hlen : g.length = g'.length) (hS : List.Forall₂ List.Perm S S') :
+    pointValues h k hdk na T V cv p ((g :: S).map (List.map (·.f))) ((g :: S).map (List.map (·.m0)))
+        ((g :: S).map (List.map (·.m1))) ((g :: S).map (List.map (·.m2))) w
+      = pointValues h k hdk na T V cv p ((g' :: S').map (List.map (·.f))) ((g' :: S').map (List.map (·.m0)))
+        ((g' :: S').map (List.map (·.m1))) ((g' :: S').map (List.map (·.m2))) w := by
+  unfold pointValues zeroPointLongAt thermalLongAt zeroPointOffAt thermalOffAt isoToAdiaAt
+  simp only [modeGamma, Qarr, Q1arr, Q2arr, zw2_map, map2_map]
+  simp only [average_perm_modes_map _ g g' S S' w hΓ hlen hS]
+
+/-- **the results of the classes** do not depend on the order of the modes inside the q-points (Γ: of its non-acoustic modes) -/
+theorem values_perm_modes (c : Consts ℝ) (T P cv V e0 e1 pst : ℝ) (g g' : List ModeRec) (S S' : List (List ModeRec))
+    (w : List ℝ) (hΓ : (g.drop 3).Perm (g'.drop 3)) (hlen : g.length = g'.length) (hS : List.Forall₂ List.Perm S S') :
+    values c T P cv (sliceOfM V e0 e1 pst (g :: S)) w = values c T P cv (sliceOfM V e0 e1 pst (g' :: S')) w :=
+  values_eq_of_pointValues c T P cv _ _ _ _ rfl rfl rfl rfl
+    (avg_perm_modes_point c.h c.k c.hdk c.na T V cv (prefactorsLong e0 e1) g g' S S' w hΓ hlen hS)
+    (avg_perm_modes_point c.h c.k c.hdk c.na T V cv (prefactorsOff e0 e1) g g' S S' w hΓ hlen hS)
+
+/-! ### 3. all weights times a common factor -/
+
+/-- **avg_weight_scale.**  `numpy.average(…, weights=w)` normalises by Σw: a common factor `c ≠ 0` on all weights
+(multiplicities vs. normalised weights) changes nothing. -/
+theorem avg_weight_scale (X : List (List ℝ)) (w : List ℝ) (c : ℝ) (hc : c ≠ 0) (hw : sumL w ≠ 0) :
+    averageOverModes X (w.map fun x => c * x) = averageOverModes X w :=
+  average_weight_scale X w c hc hw
+
+/-- the same for the five quantities of a (T, V) point -/
+theorem avg_weight_scale_point (h k hdk : ℝ) (na : ℕ) (T V cv : ℝ) (p : Pref ℝ) (freq mg0 mg1 mg2 : List (List ℝ))
+    (w : List ℝ) (c : ℝ) (hc : c ≠ 0) (hw : sumL w ≠ 0) :
+    pointValues h k hdk na T V cv p freq mg0 mg1 mg2 (w.map fun x => c * x)
+      = pointValues h k hdk na T V cv p freq mg0 mg1 mg2 w := by
+  unfold pointValues zeroPointLongAt thermalLongAt zeroPointOffAt thermalOffAt isoToAdiaAt
+  simp only [average_weight_scale _ w c hc hw]
+
+/-- **the results of the classes** do not depend on a common factor on the weights -/
+theorem values_weight_scale (c : Consts ℝ) (T P cv : ℝ) (s : VolSlice ℝ) (w : List ℝ) (a : ℝ) (ha : a ≠ 0)
+    (hw : sumL w ≠ 0) : values c T P cv s (w.map fun x => a * x) = values c T P cv s w :=
+  values_eq_of_pointValues c T P cv _ _ _ _ rfl rfl rfl rfl
+    (avg_weight_scale_point c.h c.k c.hdk c.na T s.V cv _ s.freq s.mg0 s.mg1 s.mg2 w a ha hw)
+    (avg_weight_scale_point c.h c.k c.hdk c.na T s.V cv _ s.freq s.mg0 s.mg1 s.mg2 w a ha hw)
+
+/-! ### 4. the interpolation loop is equivariant under re-indexing of (q, m) -/
+
+section Interp
+open Cij.Interp
+variable {α : Type} [Neg α] [Zero α] [ExpLog α]
+
+/-- **interp_perm_equivariant.**  `σ` re-indexes the (q-point, mode) positions — e.g. q-points 2…n_q listed in another order,
+or the modes of a q-point listed in another order — without moving anything into or out of the three Γ-acoustic slots.
+If the re-presented phonon data carry at `σ(j,k)` the series (over volumes) the original carries at `(j,k)`, then all three
+outputs (ω, γ, V∂γ/∂V) of `interpolate_modes` on the whole (extrapolated) volume grid are re-indexed by the same `σ`: for
+every interpolation method, order and kernel.  (Per-mode independence: the cell `(j,k)` is computed from its series alone —
+`modes_cell`, the lemma behind C11 `modes_not_mixed`.) -/
+theorem interp_perm_equivariant (m : Method) (order : ℕ) (I : Interpolant α) (vols vArray : List α) (nq np : ℕ)
+    (freqs freqs' : List (List (List α))) (F G D F' G' D' : List (List (List α)))
+    (h : interpolateModes m order I vols vArray nq np freqs = .ok (F, G, D))
+    (h' : interpolateModes m order I vols vArray nq np freqs' = .ok (F', G', D'))
+    (σ : ℕ × ℕ → ℕ × ℕ)
+    (hrange : ∀ j k, j < nq → k < np → (σ (j, k)).1 < nq ∧ (σ (j, k)).2 < np)
+    (hΓ : ∀ j k, j < nq → k < np → isΓac (σ (j, k)) = isΓac (j, k))
+    (hser : ∀ j k, j < nq → k < np → series freqs' (σ (j, k)).1 (σ (j, k)).2 = series freqs j k)
+    (t j k : ℕ) (ht : t < vArray.length) (hj : j < nq) (hk : k < np) :
+    entry F' t (σ (j, k)).1 (σ (j, k)).2 = entry F t j k ∧ entry G' t (σ (j, k)).1 (σ (j, k)).2 = entry G t j k ∧
+      entry D' t (σ (j, k)).1 (σ (j, k)).2 = entry D t j k := by
+  obtain ⟨col, hcol, e1, e2, e3⟩ := modes_cell m order I vols vArray nq np freqs F G D h t j k ht hj hk
+  obtain ⟨hj', hk'⟩ := hrange j k hj hk
+  obtain ⟨col', hcol', e1', e2', e3'⟩ :=
+    modes_cell m order I vols vArray nq np freqs' F' G' D' h' t (σ (j, k)).1 (σ (j, k)).2 ht hj' hk'
+  have hflag := hΓ j k hj hk
+  simp only [isΓac] at hflag
+  rw [hser j k hj hk] at hcol'
+  have : cell m order I vols vArray (σ (j, k)).1 (σ (j, k)).2 (series freqs j k)
+      = cell m order I vols vArray j k (series freqs j k) := by
+    unfold cell
+    rw [hflag]
+  rw [this, hcol] at hcol'
+  cases hcol'
+  exact ⟨e1'.trans e1.symm, e2'.trans e2.symm, e3'.trans e3.symm⟩
+
+/-- the Γ-acoustic positions stay exactly zero in the re-presented run as well (C11 `gamma_acoustic_zero` applied to it) -/
+theorem interp_perm_gamma_zero (m : Method) (order : ℕ) (I : Interpolant α) (vols vArray : List α) (nq np : ℕ)
+    (freqs' : List (List (List α))) (F' G' D' : List (List (List α)))
+    (h' : interpolateModes m order I vols vArray nq np freqs' = .ok (F', G', D'))
+    (t k : ℕ) (ht : t < vArray.length) (hq : 0 < nq) (hk : k < np) (hk3 : k < 3) :
+    entry F' t 0 k = some 0 ∧ entry G' t 0 k = some 0 ∧ entry D' t 0 k = some 0 :=
+  Cij.C11.gamma_acoustic_zero m order I vols vArray nq np freqs' F' G' D' h' t k ht hq hk hk3
+
+end Interp
+
+/-! ### 5. least squares does not see the order of the rows -/
+
+section RowPerm
+open Cij.Interp
+
+/-- **lsq_row_perm** (`mode_gamma.lstsq_polyfit`).  The normal matrix `VᵀV`, the right-hand side `Vᵀy` and the certificate are
+sums over the rows `(x_r, y_r)`; the solver is a function of these: rows in another order give the same normal system and
+the same answer (same coefficients, or `none` for both). -/
+theorem lsq_row_perm {K : Type} [Field K] [DecidableEq K] (xs ys xs' ys' : List K) (hl : xs.length = ys.length)
+    (hl' : xs'.length = ys'.length) (h : (xs.zip ys).Perm (xs'.zip ys')) (order : ℕ) :
+    normalMatrix xs (order + 1) = normalMatrix xs' (order + 1) ∧
+      normalRhs xs ys (order + 1) = normalRhs xs' ys' (order + 1) ∧
+      lstsqPolyfit xs ys order = lstsqPolyfit xs' ys' order :=
+  ⟨normalMatrix_perm (fst_perm_of_zip_perm hl hl' h) _, normalRhs_perm h _, lstsqPolyfit_perm hl hl' h order⟩
+
+/-- the same for the model of `numpy.polyfit` used by the static fit -/
+theorem polyfit_row_perm {K : Type} [Field K] [BEq K] (xs ys xs' ys' : List K) (hl : xs.length = ys.length)
+    (hl' : xs'.length = ys'.length) (h : (xs.zip ys).Perm (xs'.zip ys')) (deg : ℕ) :
+    Cij.LeastSq.normalAug xs ys deg = Cij.LeastSq.normalAug xs' ys' deg ∧
+      Cij.LeastSq.polyfit xs ys deg = Cij.LeastSq.polyfit xs' ys' deg :=
+  ⟨Cij.LeastSq.normalAug_perm hl hl' h deg, Cij.LeastSq.polyfit_perm hl hl' h deg⟩
+
+open Cij.FullModulus in
+/-- **fit_modulus, rows in another order, same abscissae.**  The rows (strain, volume, tabulated value) of the static table are
+listed in another order while the strains themselves are unchanged (the first row — the reference volume — keeps its
+place, or the strains are simply given): `fit_modulus` returns the same array on the fine grid. -/
+theorem fit_modulus_row_perm {K : Type} [Field K] [BEq K] (inp inp' : Inputs K) (moduli moduli' : List K) (order : ℕ)
+    (hl1 : inp.strains.length = inp.volumes.length) (hl2 : inp.volumes.length = moduli.length)
+    (hl1' : inp'.strains.length = inp'.volumes.length) (hl2' : inp'.volumes.length = moduli'.length)
+    (hrows : (inp.strains.zip (inp.volumes.zip moduli)).Perm (inp'.strains.zip (inp'.volumes.zip moduli')))
+    (hgrid : inp'.strainArray = inp.strainArray) (hv : inp'.vArray = inp.vArray) :
+    fitModulus inp' moduli' order = fitModulus inp moduli order := by
+  unfold fitModulus
+  have hz : ∀ (s v c : List K), s.zip (List.zipWith (fun v c => v * c) v c)
+      = (s.zip (v.zip c)).map fun t => (t.1, t.2.1 * t.2.2) := fun s v c => by
+    rw [Cij.LeastSq.zipWith_eq_map_zip, List.zip_map_right]
+    rfl
+  have hperm : (inp.strains.zip (List.zipWith (fun v c => v * c) inp.volumes moduli)).Perm
+      (inp'.strains.zip (List.zipWith (fun v c => v * c) inp'.volumes moduli')) := by
+    rw [hz, hz]; exact hrows.map _
+  rw [Cij.LeastSq.polyfit_perm (by simp [List.length_zipWith]; omega) (by simp [List.length_zipWith]; omega) hperm,
+    hgrid, hv]
+
+end RowPerm
+
+/-! ### 6. another reference volume: the abscissa changes affinely, the fitted values do not -/
+
+section Affine
+open Cij.Interp
+variable {K : Type} [Field K] [LinearOrder K] [IsStrictOrderedRing K]
+
+/-- **lsq_affine_abscissa.**  `p` is a least-squares polynomial of degree ≤ d of the rows `(x_r, y_r)` (it satisfies the normal
+equations — by C05/C11 `lsq_minimises` it minimises the sum of squared residuals), `p'` one of the rows `(a·x_r + b, y_r)`,
+`a ≠ 0`, and there are at least d + 1 distinct abscissae (the property's "≥ 4 distinct volumes" for the cubic).  Then the
+fitted VALUES agree at corresponding points, everywhere: `p'(a·x + b) = p(x)` for all `x` — the affine image of a polynomial
+of degree ≤ d is one, and the least-squares polynomial is unique. -/
+theorem lsq_affine_abscissa (xs ys : List K) (hlen : xs.length = ys.length) (a b : K) (ha : a ≠ 0) (d : ℕ) (p p' : List K)
+    (hp : NormalEqs xs ys d p) (hp' : NormalEqs (xs.map fun x => a * x + b) ys d p')
+    (hdist : d + 1 ≤ xs.toFinset.card) : ∀ x, polyval p' (a * x + b) = polyval p x :=
+  affine_unique xs ys hlen a b ha d p p' hp hp' hdist
+
+/-- uniqueness itself (a = 1, b = 0): any two certified answers for the same rows are the same function -/
+theorem lsq_unique (xs ys : List K) (hlen : xs.length = ys.length) (d : ℕ) (p p' : List K)
+    (hp : NormalEqs xs ys d p) (hp' : NormalEqs xs ys d p') (hdist : d + 1 ≤ xs.toFinset.card) :
+    ∀ x, polyval p' x = polyval p x :=
+  normalEqs_unique xs ys hlen d p p' hp hp' hdist
+
+omit [IsStrictOrderedRing K] in
+/-- what the two executable solvers return satisfies the hypothesis of `lsq_affine_abscissa` -/
+theorem solvers_certified (xs ys : List K) (d : ℕ) (p : List K) :
+    (lstsqPolyfit xs ys d = some p → NormalEqs xs ys d p) ∧
+      (Cij.LeastSq.polyfit xs ys d = some p → NormalEqs xs ys d p) :=
+  ⟨fun h => normalEqs_of_normalEq xs ys d p (Cij.C11.lsq_sound xs ys d p h),
+   fun h => (Cij.LeastSq.normalEqs_of_polyfit xs ys d p h).2⟩
+
+open Cij.FullModulus in
+/- FULL statement (not proved): under the hypotheses below, `fitModulus inp' moduli order = fitModulus inp moduli order`
+   (including: one answers iff the other does).
+   Proved part (`…_partial`): whenever both answer, the answers are equal.  Missing: totality of the unpivoted
+   elimination `LeastSq.solve` on non-singular normal systems (its answer is only returned after the certificate
+   `normalEqHolds` passed; that it answers is observed on every correspondence case of C05, and the end-to-end effect of a
+   reordered table is measured by harness/c13.py `row-perm`). -/
+/-- **fit_modulus with another reference volume.**  Strains of the table volumes and of the fine grid are both transformed by
+the one affine map `f ↦ a·f + b` (`eulerian_reference_affine`); at least `order + 2` distinct strains.  The fitted static
+modulus on the fine grid is unchanged. -/
+theorem fit_modulus_affine_partial (inp inp' : Inputs K) (a b : K) (ha : a ≠ 0) (moduli : List K) (order : ℕ)
+    (hs : inp'.strains = inp.strains.map fun x => a * x + b)
+    (hsa : inp'.strainArray = inp.strainArray.map fun x => a * x + b)
+    (hv : inp'.volumes = inp.volumes) (hva : inp'.vArray = inp.vArray)
+    (hdist : order + 2 ≤ inp.strains.toFinset.card) (r r' : List K)
+    (h : fitModulus inp moduli order = some r) (h' : fitModulus inp' moduli order = some r') : r' = r := by
+  unfold fitModulus at h h'
+  cases hp : Cij.LeastSq.polyfit inp.strains (List.zipWith (fun v c => v * c) inp.volumes moduli) (order + 1) with
+  | none => simp [hp] at h
+  | some p =>
+    cases hp' : Cij.LeastSq.polyfit inp'.strains (List.zipWith (fun v c => v * c) inp'.volumes moduli) (order + 1) with
+    | none => simp [hp'] at h'
+    | some p' =>
+      simp only [hp, hp', Option.pure_def, Option.bind_eq_bind, Option.bind_some, Option.some.injEq] at h h'
+      subst h; subst h'
+      obtain ⟨hlen, hne⟩ := Cij.LeastSq.normalEqs_of_polyfit _ _ _ _ hp
+      obtain ⟨_, hne'⟩ := Cij.LeastSq.normalEqs_of_polyfit _ _ _ _ hp'
+      rw [hs, hv] at hne'
+      have key := affine_unique _ _ hlen a b ha (order + 1) p p' hne hne' hdist
+      rw [hsa, hva, List.zipWith_map_left]
+      have : ∀ s v : K, Cij.LeastSq.polyval p' (a * s + b) / v = Cij.LeastSq.polyval p s / v := fun s v => by
+        rw [Cij.LeastSq.polyval_eq_interp, Cij.LeastSq.polyval_eq_interp, key]
+      simp only [this]
+
+open Cij.FullModulus in
+/- FULL statement (not proved): as below with `fitModulus inp' moduli' order = fitModulus inp moduli order`.
+   Missing: the same solver totality as for `fit_modulus_affine_partial`. -/
+/-- **rows of the static table in ANY other order** (clauses 5 and 6 together): the rows (volume, value) are permuted, hence the
+reference volume `volumes[0]` may change, hence the strains of the permuted rows and of the fine grid are the affine image
+of the original ones.  Whenever both fits answer, `fit_modulus` returns the same array on the fine grid. -/
+theorem static_row_perm_partial (inp inp' : Inputs K) (a b : K) (ha : a ≠ 0) (moduli moduli' : List K) (order : ℕ)
+    (hl1 : inp.strains.length = inp.volumes.length) (hl2 : inp.volumes.length = moduli.length)
+    (hl1' : inp'.strains.length = inp'.volumes.length) (hl2' : inp'.volumes.length = moduli'.length)
+    (hrows : (inp'.strains.zip (inp'.volumes.zip moduli')).Perm
+      ((inp.strains.map fun x => a * x + b).zip (inp.volumes.zip moduli)))
+    (hsa : inp'.strainArray = inp.strainArray.map fun x => a * x + b) (hva : inp'.vArray = inp.vArray)
+    (hdist : order + 2 ≤ inp.strains.toFinset.card) (r r' : List K)
+    (h : fitModulus inp moduli order = some r) (h' : fitModulus inp' moduli' order = some r') : r' = r := by
+  -- the original rows with the new reference volume
+  let mid : Inputs K := { inp with strains := inp.strains.map fun x => a * x + b,
+                                   strainArray := inp.strainArray.map fun x => a * x + b }
+  have hmid : fitModulus inp' moduli' order = fitModulus mid moduli order :=
+    Cij.C13.fit_modulus_row_perm mid inp' moduli moduli' order (by simp [mid, hl1]) hl2 hl1' hl2' hrows.symm hsa hva
+  rw [hmid] at h'
+  exact fit_modulus_affine_partial inp mid a b ha moduli order rfl rfl rfl rfl hdist r r' h h'
+
+/-- **eulerian_reference_affine.**  qha's Eulerian strain `f = ((V₀/V)^(2/3) − 1)/2` with another reference volume `V₀'` is the
+affine image `c·f + (c − 1)/2`, `c = (V₀'/V₀)^(2/3) ≠ 0`, of the strain with reference `V₀` — for the table volumes and the
+fine grid alike: the hypothesis of the three theorems above is what reordering the rows does. -/
+theorem eulerian_reference_affine (v0 v0' : ℝ) (h0 : 0 < v0) (h0' : 0 < v0') :
+    (v0' / v0) ^ ((2 : ℝ) / 3) ≠ 0 ∧ ∀ v, 0 < v →
+      Cij.FullModulus.eulerian v0' v
+        = (v0' / v0) ^ ((2 : ℝ) / 3) * Cij.FullModulus.eulerian v0 v + ((v0' / v0) ^ ((2 : ℝ) / 3) - 1) / 2 :=
+  ⟨(Cij.FullModulus.eulerian_factor_pos v0 v0' h0 h0').ne', fun v hv => Cij.FullModulus.eulerian_affine v0 v0' v h0 h0' hv⟩
+
+end Affine
+
+/-! ### 7. static table: column prefix, letter case, column order -/
+
+section Static
+open Cij.ElastDat Cij.Lex
+variable {Num : Type}
+
+/-- **static_keys_canonical.**  Any two digit-free prefixes (`c`, `C`, `c_`, `C_`, nothing, …) in front of the two Voigt digits
+— in either order of the two digits — give the SAME dictionary key, and it is one of the 21 canonical keys
+(corollary of C17 `key_any_prefix_voigt`, `key_canonical`, themselves resting on C10). -/
+theorem static_keys_canonical (pre pre' : String) (hpre : ∀ c ∈ pre.toList, c.isDigit = false)
+    (hpre' : ∀ c ∈ pre'.toList, c.isDigit = false) :
+    ∀ p ∈ allPairs, ∃ q ∈ keys21,
+      findModulusKey (pre ++ pairStr p) = some (.mod (keyOfVoigt q)) ∧
+      findModulusKey (pre' ++ pairStr p) = some (.mod (keyOfVoigt q)) ∧
+      findModulusKey (pre' ++ pairStr (p.2, p.1)) = some (.mod (keyOfVoigt q)) := by
+  intro p hp
+  obtain ⟨q, hq, h1, h2⟩ := Cij.C17.key_canonical p hp
+  have hp' : (p.2, p.1) ∈ allPairs := by
+    rw [Cij.mem_allPairs] at hp ⊢
+    exact ⟨hp.2, hp.1⟩
+  refine ⟨q, hq, ?_, ?_, ?_⟩
+  · rw [Cij.C17.key_any_prefix_voigt pre hpre p hp, h1]; rfl
+  · rw [Cij.C17.key_any_prefix_voigt pre' hpre' p hp, h1]; rfl
+  · rw [Cij.C17.key_any_prefix_voigt pre' hpre' (p.2, p.1) hp', h2]; rfl
+
+/-- **static_columns_reordered.**  A well-formed static table `t` (distinct canonical keys, every row as wide as the key line) is
+re-presented with its component columns listed in the order `idx` (any permutation of the column numbers) and under new
+names that denote the same keys (`static_keys_canonical`: other prefix, other letter case, transposed digits).  Followed by
+ANY rest of the file (nothing, a blank line, a lattice block), `read_elast_data` either fails on both or returns the same
+data: same header numbers, same lattice, and for every volume the same map key ↦ value. -/
+theorem static_columns_reordered (F : NumFmt Num) (t : TableFile Num) (kv : Key) (keys : List Key) (h : t.Ok F kv keys)
+    (hnd : keys.Nodup) (hwide : ∀ r ∈ t.rows, r.2.length = t.names.length)
+    (idx : List ℕ) (hidx : idx.Perm (List.range t.names.length)) (names' : List Token)
+    (hnames : names'.map findModulusKey = (pick idx t.names).map findModulusKey) (tail : List Line) :
+    SameRead (readElastData F (t.lines ++ tail)) (readElastData F ((t.recolumn idx names').lines ++ tail)) := by
+  have hklen : keys.length = t.names.length := length_of_mapM _ _ _ h.keys
+  have hok' := recolumn_ok F t kv keys h idx names' hnames
+  have hnd' : (pick idx keys).Nodup :=
+    (pick_perm idx keys (hklen ▸ hidx)).nodup_iff.mpr hnd
+  rw [read_elast_core F t kv keys h tail, read_elast_core F _ kv _ hok' tail]
+  have hrl : (t.recolumn idx names').rows.length = t.rows.length := by simp [TableFile.recolumn]
+  rw [hrl]
+  cases readTail F t.rows.length tail with
+  | none => trivial
+  | some lat =>
+    refine ⟨rfl, rfl, rfl, rfl, ?_⟩
+    simp only [TableFile.recolumn, List.map_map]
+    rw [List.forall₂_map_left_iff, List.forall₂_map_right_iff, List.forall₂_same]
+    intro r hr
+    have hw : keys.length = (r.2.map Prod.snd).length := by rw [List.length_map, hwide r hr, hklen]
+    have e' : Row.volume (kv :: pick idx keys) (r.1, pick idx r.2)
+        = ⟨r.1.2, pick idx (keys.zip (r.2.map Prod.snd))⟩ := by
+      simp only [Row.volume, List.tail_cons, dictOfZip_nodup _ _ hnd', pick_map, pick_zip idx keys _ hw]
+    have e : Row.volume (kv :: keys) r = ⟨r.1.2, keys.zip (r.2.map Prod.snd)⟩ := by
+      simp only [Row.volume, List.tail_cons, dictOfZip_nodup _ _ hnd]
+    have hperm : (pick idx (keys.zip (r.2.map Prod.snd))).Perm (keys.zip (r.2.map Prod.snd)) := by
+      apply pick_perm
+      rw [List.length_zip, ← hw, Nat.min_self, hklen]
+      exact hidx
+    simp only [Function.comp, e, e']
+    exact ⟨trivial, hperm, fun k => lookup_perm _ _ hperm (nodup_map_fst_zip keys _ hnd) k⟩
+
+end Static
+
+/-! ### 8. non-vacuity: concrete instances (3 q-points, 6 modes) -/
+
+section Examples
+open Cij.Interp Cij.ElastDat Cij.Lex
+
+/-- the value on a 3-q-point, 6-mode instance: Γ row masked to (0,0,0,4,5,6), weights 1, 2, 5 -/
+example : averageOverModes [[1, 2, 3, 4, 5, 6], [7, 8, 9, 10, 11, 12], [2, 4, 6, 8, 10, 12]] [1, 2, 5] = (113 : ℝ) / 16 := by
+  norm_num [averageOverModes, clearGamma, zeroFirst, mean]
+
+/-- `avg_perm_q` on it: q-points 2 and 3 exchanged together with their weights (a genuine transposition) -/
+example : averageOverModes [[1, 2, 3, 4, 5, 6], [7, 8, 9, 10, 11, 12], [2, 4, 6, 8, 10, 12]] [1, 2, 5]
+    = averageOverModes [[1, 2, 3, 4, 5, 6], [2, 4, 6, 8, 10, 12], [7, 8, 9, 10, 11, 12]] [(1 : ℝ), 5, 2] :=
+  avg_perm_q _ _ _ _ _ _ rfl rfl (List.Perm.swap _ _ _)
+
+/-- … and the hypothesis matters: exchanging the q-points WITHOUT their weights gives another number (8 ≠ 113/16) -/
+example : averageOverModes [[1, 2, 3, 4, 5, 6], [2, 4, 6, 8, 10, 12], [7, 8, 9, 10, 11, 12]] [1, 2, 5] = (8 : ℝ) := by
+  norm_num [averageOverModes, clearGamma, zeroFirst, mean]
+
+/-- `avg_perm_modes` on it: Γ keeps its acoustic slots (permuted among themselves) and lists its optical modes in another order,
+q-point 2 is reversed, q-point 3 rotated -/
+example : averageOverModes [[1, 2, 3, 4, 5, 6], [7, 8, 9, 10, 11, 12], [2, 4, 6, 8, 10, 12]] [1, 2, 5]
+    = averageOverModes [[3, 1, 2, 6, 4, 5], [12, 11, 10, 9, 8, 7], [4, 6, 8, 10, 12, 2]] [(1 : ℝ), 2, 5] := by
+  apply avg_perm_modes
+  · show List.Perm [(4 : ℝ), 5, 6] [6, 4, 5]
+    exact (List.perm_cons_append_cons 6 (l₁ := [4, 5]) (l₂ := []) (List.Perm.refl _)).symm
+  · rfl
+  · refine List.Forall₂.cons ?_ (List.Forall₂.cons ?_ List.Forall₂.nil)
+    · simpa using List.reverse_perm [(12 : ℝ), 11, 10, 9, 8, 7]
+    · exact List.perm_append_comm (l₁ := [(2 : ℝ)]) (l₂ := [4, 6, 8, 10, 12])
+
+/-- … and the Γ restriction matters: moving an acoustic mode out of the first three slots changes the result (7 ≠ 113/16) -/
+example : averageOverModes [[4, 2, 3, 1, 5, 6], [7, 8, 9, 10, 11, 12], [2, 4, 6, 8, 10, 12]] [1, 2, 5] = (7 : ℝ) := by
+  norm_num [averageOverModes, clearGamma, zeroFirst, mean]
+
+/-- `avg_weight_scale`: weights scaled by 1/7 (multiplicities → un-normalised fractions) -/
+example : averageOverModes [[1, 2, 3, 4, 5, 6], [7, 8, 9, 10, 11, 12], [2, 4, 6, 8, 10, 12]]
+      (([1, 2, 5] : List ℝ).map fun x => 1 / 7 * x)
+    = averageOverModes [[1, 2, 3, 4, 5, 6], [7, 8, 9, 10, 11, 12], [2, 4, 6, 8, 10, 12]] [1, 2, 5] :=
+  avg_weight_scale _ _ _ (by norm_num) (by norm_num)
+
+/-- the hypotheses of the (T, V)-point theorems are satisfiable by a genuine transposition of records -/
+example (a b : QPoint) : [a, b].Perm [b, a] := List.Perm.swap _ _ _
+example (m1 m2 m3 o1 o2 o3 : ModeRec) :
+    (([m1, m2, m3, o1, o2, o3] : List ModeRec).drop 3).Perm (([m2, m1, m3, o3, o1, o2] : List ModeRec).drop 3) :=
+  (List.perm_cons_append_cons o3 (l₁ := [o1, o2]) (l₂ := []) (List.Perm.refl _)).symm
+
+/-- `interp_perm_equivariant`, an actual run (scalar ℚ with exp = log = id, least squares of order 2, 3 volumes, 3 q-points,
+4 modes, 2 grid volumes; Γ-acoustic input entries 7, 8, 9 are ignored): the original presentation … -/
+example :
+    letI : ExpLog ℚ := ⟨id, id⟩
+    interpolateModes .lsqPoly 2 (lsqInterpolant 2) ([1, 2, 3] : List ℚ) [4, 5] 3 4
+        [[[7, 7, 7, 1], [2, 3, 5, 8], [1, 4, 9, 16]], [[8, 8, 8, 3], [3, 5, 6, 9], [2, 6, 12, 20]],
+         [[9, 9, 9, 5], [5, 6, 9, 11], [3, 8, 15, 24]]]
+      = .ok ([[[0, 0, 0, 7], [8, 6, 14, 14], [4, 10, 18, 28]], [[0, 0, 0, 9], [12, 5, 21, 18], [5, 12, 21, 32]]],
+             [[[0, 0, 0, -2], [-7 / 2, 1 / 2, -6, -7 / 2], [-1, -2, -3, -4]],
+              [[0, 0, 0, -2], [-9 / 2, 3 / 2, -8, -9 / 2], [-1, -2, -3, -4]]],
+             [[[0, 0, 0, 0], [-1, 1, -2, -1], [0, 0, 0, 0]], [[0, 0, 0, 0], [-1, 1, -2, -1], [0, 0, 0, 0]]]) := by
+  decide +kernel
+
+/-- … and the re-presented one: q-points 2 and 3 listed in the other order, the modes of the (new) second q-point reversed — all
+three outputs are re-indexed the same way, the Γ-acoustic zeros stay -/
+example :
+    letI : ExpLog ℚ := ⟨id, id⟩
+    interpolateModes .lsqPoly 2 (lsqInterpolant 2) ([1, 2, 3] : List ℚ) [4, 5] 3 4
+        [[[7, 7, 7, 1], [16, 9, 4, 1], [2, 3, 5, 8]], [[8, 8, 8, 3], [20, 12, 6, 2], [3, 5, 6, 9]],
+         [[9, 9, 9, 5], [24, 15, 8, 3], [5, 6, 9, 11]]]
+      = .ok ([[[0, 0, 0, 7], [28, 18, 10, 4], [8, 6, 14, 14]], [[0, 0, 0, 9], [32, 21, 12, 5], [12, 5, 21, 18]]],
+             [[[0, 0, 0, -2], [-4, -3, -2, -1], [-7 / 2, 1 / 2, -6, -7 / 2]],
+              [[0, 0, 0, -2], [-4, -3, -2, -1], [-9 / 2, 3 / 2, -8, -9 / 2]]],
+             [[[0, 0, 0, 0], [0, 0, 0, 0], [-1, 1, -2, -1]], [[0, 0, 0, 0], [0, 0, 0, 0], [-1, 1, -2, -1]]]) := by
+  decide +kernel
+
+/-- the re-indexing of that run: q-points 1 ↔ 2 (0-based), modes of the new q-point 1 reversed; it maps the 3 × 4 index range into
+itself and keeps the Γ-acoustic flag — the hypotheses `hrange`, `hΓ` of `interp_perm_equivariant` -/
+example :
+    let σ : ℕ × ℕ → ℕ × ℕ := fun jk => if jk.1 = 1 then (2, jk.2) else if jk.1 = 2 then (1, 3 - jk.2) else jk
+    ∀ j < 3, ∀ k < 4, ((σ (j, k)).1 < 3 ∧ (σ (j, k)).2 < 4) ∧ isΓac (σ (j, k)) = isΓac (j, k) := by
+  decide
+
+/-- `lsq_row_perm`: an over-determined fit with non-zero residual, rows listed in another order — hypothesis and conclusion -/
+example : (([0, 1, 2, 3] : List ℚ).zip [0, 1, 0, 1]).Perm (([3, 0, 2, 1] : List ℚ).zip [1, 0, 0, 1]) := by decide
+example : lstsqPolyfit ([0, 1, 2, 3] : List ℚ) [0, 1, 0, 1] 1 = some [1 / 5, 1 / 5] ∧
+    lstsqPolyfit ([3, 0, 2, 1] : List ℚ) [1, 0, 0, 1] 1 = some [1 / 5, 1 / 5] := by decide +kernel
+
+/-- `lsq_affine_abscissa`: a cubic fit with non-zero residual on 5 distinct abscissae and on their image under x ↦ 2x + 1: both
+solvers answer, the coefficient lists differ, the fitted values at corresponding points (x = 7 ↦ 15, outside the data) agree -/
+example :
+    Cij.LeastSq.polyfit [(0 : ℚ), 1, 2, 3, 5] [1, 2, 9, 29, 126] 3 = some [143 / 159, 247 / 371, -914 / 1113, 391 / 371] ∧
+    Cij.LeastSq.polyfit (([0, 1, 2, 3, 5] : List ℚ).map fun x => 2 * x + 1) [1, 2, 9, 29, 126] 3
+      = some [143 / 1272, -507 / 2968, -3617 / 8904, 4507 / 2968] ∧
+    Cij.LeastSq.polyval [143 / 1272, -507 / 2968, -3617 / 8904, 4507 / 2968] (2 * 7 + 1 : ℚ)
+      = Cij.LeastSq.polyval [143 / 159, 247 / 371, -914 / 1113, 391 / 371] 7 ∧
+    3 + 1 ≤ ([0, 1, 2, 3, 5] : List ℚ).toFinset.card := by
+  decide +kernel
+
+/-- the affine map of the Eulerian strain is a genuine one: V₀ = 8, V₀' = 27 gives c = (27/8)^(2/3) = 9/4 ≠ 1 -/
+example : ((27 : ℝ) / 8) ^ ((2 : ℝ) / 3) = 9 / 4 := by
+  have h : ((27 : ℝ) / 8) = (3 / 2) ^ (3 : ℝ) := by norm_num
+  rw [h, ← Real.rpow_mul (by norm_num)]
+  norm_num
+
+/-- `static_columns_reordered` / `static_keys_canonical`: the hypotheses on an instance — columns (c11, c12, c44) listed as
+(C44, C_11, c21): a permutation of the column numbers, and names that denote the same keys -/
+example : ([2, 0, 1] : List ℕ).Perm (List.range 3) ∧
+    (["C44", "C_11", "c21"] : List Token).map findModulusKey = (pick [2, 0, 1] ["c11", "c12", "c44"]).map findModulusKey ∧
+    (["c11", "c12", "c44"].mapM findModulusKey).isSome := by
+  decide +kernel
+
+/-- a static table with a lattice block … -/
+def fileA : List Line :=
+  [["title"], ["586.01996", "2", "200.782"], ["V", "c11", "c12", "c44"],
+   ["617.47767", "399.2", "124.3", "88.35"], ["586.01996", "460.9", "156.2", "112.35"],
+   ["lattice_a", "lattice_b", "lattice_c"], ["1.0", "0.8", "2.9"], ["0.9", "0.8", "2.8"]]
+/-- … and the same table with the columns listed as (c44, c11, c12) under the names C44, C_11, c21 -/
+def fileB : List Line :=
+  [["title"], ["586.01996", "2", "200.782"], ["V", "C44", "C_11", "c21"],
+   ["617.47767", "88.35", "399.2", "124.3"], ["586.01996", "112.35", "460.9", "156.2"],
+   ["lattice_a", "lattice_b", "lattice_c"], ["1.0", "0.8", "2.9"], ["0.9", "0.8", "2.8"]]
+/-- what a reader of the dictionaries sees: per volume the values under c11, c12, c44 -/
+def view (d : ElastData Rat) : List (Rat × List (Option Rat)) :=
+  d.volumes.map fun v => (v.volume, [((1 : Int), (1 : Int)), (1, 2), (4, 4)].map fun p => v.moduli.lookup (.mod (keyOfVoigt p)))
+
+/-- … the conclusion computed on the two files: both parse, header numbers, lattice and the views agree, while the raw
+dictionaries are listed in different orders -/
+example : (readElastData ratFmt fileA).map view = (readElastData ratFmt fileB).map view ∧
+    (readElastData ratFmt fileA).map (fun d => (d.vref, d.nv, d.cellmass)) = (readElastData ratFmt fileB).map (fun d => (d.vref, d.nv, d.cellmass)) ∧
+    (readElastData ratFmt fileA).map (·.lattice) = (readElastData ratFmt fileB).map (·.lattice) := by
+  decide +kernel
+example : (readElastData ratFmt fileA).isSome = true ∧
+    (readElastData ratFmt fileA).map (·.volumes.map (·.moduli.map (·.1)))
+      ≠ (readElastData ratFmt fileB).map (·.volumes.map (·.moduli.map (·.1))) := by
+  decide +kernel
+
+/-- the two files ARE an instance of `static_columns_reordered`: `fileA` is the well-formed table `tableA` followed by its lattice
+block, `fileB` is `tableA.recolumn [2, 0, 1] ["C44", "C_11", "c21"]` followed by the same block; keys distinct, rows as wide as
+the key line -/
+def tableA : TableFile Rat :=
+  { title := ["title"], vref := ("586.01996", mkRat 58601996 100000), nvTok := "2", mass := ("200.782", mkRat 200782 1000),
+    extra := [], vname := "V", names := ["c11", "c12", "c44"],
+    rows := [(("617.47767", mkRat 61747767 100000), [("399.2", mkRat 3992 10), ("124.3", mkRat 1243 10), ("88.35", mkRat 8835 100)]),
+             (("586.01996", mkRat 58601996 100000), [("460.9", mkRat 4609 10), ("156.2", mkRat 1562 10), ("112.35", mkRat 11235 100)])] }
+
+example : tableA.lines ++ fileA.drop 5 = fileA ∧
+    (tableA.recolumn [2, 0, 1] ["C44", "C_11", "c21"]).lines ++ fileA.drop 5 = fileB := by decide +kernel
+
+example : tableA.Ok ratFmt (.raw "V") [.mod (keyOfVoigt (1, 1)), .mod (keyOfVoigt (1, 2)), .mod (keyOfVoigt (4, 4))] ∧
+    [Key.mod (keyOfVoigt (1, 1)), .mod (keyOfVoigt (1, 2)), .mod (keyOfVoigt (4, 4))].Nodup ∧
+    ∀ r ∈ tableA.rows, r.2.length = tableA.names.length := by
+  refine ⟨⟨by decide +kernel, by decide +kernel, by decide +kernel, by decide +kernel, by decide +kernel, ?_⟩,
+    by decide +kernel, by decide +kernel⟩
+  unfold Row.ok cellsOk
+  decide +kernel
+
+end Examples
+
 end Cij.C13
